@@ -97,7 +97,7 @@ pub fn run(args: &Args) {
                 steps.push(json!({"op": "store", "reg": reg.as_str(), "name": name, "vs": vs, "now": now}));
                 outs.push(json!({"ret": ok, "db": raw_tables(&path)}));
             } else {
-                now += *r.pick(&[1i64, 29_999, 30_000, 30_001, 29_998, 15_000, 60_000, 0, 2]);
+                now += *r.pick(&[1i64, 29_999, 30_000, 30_001, 29_998, 15_000, 60_000, 0, 2, -1, -2, -30_001]);    // the clock may step back
                 verif_hooks::set_clock(Some(now));
             }
         }
